@@ -219,6 +219,45 @@ def witness_cache_write_fault(out):
     return len(obs)
 
 
+def witness_fingerprint_shift(out):
+    """Model-free history for the clause "never served to a target whose fingerprint differs" at the one place the generated
+    histories do not reach (they edit fingerprint VALUES): the text of the fingerprint moves across the key/value boundary and
+    across the entry boundary while every naive rendering (k=v joined by commas) stays the same.  The target must execute again
+    after each edit (seed C01q: entries encoded as k+"="+v)."""
+    import os, subprocess, shutil
+    grog = vlib.build_grog()
+    base = os.path.join(vlib.scratch(), "fpshift")
+    shutil.rmtree(base, ignore_errors=True)
+    ws, root = os.path.join(base, "ws"), os.path.join(base, "root")
+    os.makedirs(os.path.join(ws, "p")); os.makedirs(root)
+    open(os.path.join(ws, "grog.toml"), "w").write("")
+    log = os.path.join(base, "runs.log")
+    fps = [{"flags": "a=b"}, {"flags=a": "b"}, {"flags": "a", "x": "b,y=c"}, {"flags": "a", "x": "b", "y": "c"}, {"flags": "a,x=b", "y": "c"}]
+    counts, fails = [], []
+    for fp in fps:
+        json.dump({"targets": [{"name": "t", "command": "echo run >> %s; echo fixed > t.out" % log, "outputs": ["t.out"], "fingerprint": fp}]},
+                  open(os.path.join(ws, "p", "BUILD.json"), "w"))
+        r = subprocess.run([grog, "build", "//p:t"], cwd=ws, env=bl.grog_env(root, os.path.join(base, "trace")),
+                           stdout=subprocess.PIPE, stderr=subprocess.PIPE, text=True, timeout=120)
+        if r.returncode:
+            fails.append((fp, (r.stdout + r.stderr)[-300:]))
+        counts.append(len(open(log).read().split()) if os.path.exists(log) else 0)
+    desc = ["//p:t: `echo run >> <log>; echo fixed > t.out`, outputs [t.out], one cache root",
+            "grog build //p:t once per fingerprint, in this order: %s" % json.dumps(fps)]
+    obs = {"executions_after_each_build": counts}
+    if fails:
+        out.violation("fingerprint shift witness: a build failed: %s" % (fails[0],), {"description": desc, "observed": obs}, no_input=True)
+    else:
+        for i in range(1, len(fps)):
+            if counts[i] == counts[i - 1]:
+                out.violation("a target whose fingerprint changed from %s to %s is served from the cache (the text moved across a key/value or "
+                              "entry boundary; the key does not tell the two fingerprints apart)" % (json.dumps(fps[i - 1]), json.dumps(fps[i])),
+                              {"description": desc, "observed": obs})
+                break
+    shutil.rmtree(base, ignore_errors=True)
+    return len(fps)
+
+
 def witness_revert_inplace(out):
     """Model-free: a command that rewrites its output IN PLACE (`cat in > out`, no rm: the same inode is truncated and refilled) and
     a history that keeps returning to an earlier state: v1, v2, v1 (restored from the cache), v3 (a miss: rewrites the restored file
@@ -276,6 +315,7 @@ def run(out, tier):
     findings = {f["class"]: f for f in vlib.known_findings("C01")}
     oracle_evals = witness_dep_swap(out, findings)
     oracle_evals += witness_nocache_swap(out)
+    oracle_evals += witness_fingerprint_shift(out)
     oracle_evals += witness_restore_fault(out)
     oracle_evals += witness_revert_inplace(out)
     oracle_evals += witness_cache_write_fault(out)
